@@ -3,10 +3,13 @@ package main
 import (
 	"bufio"
 	"bytes"
+	"sort"
+	"strings"
 	"encoding/json"
 	"flag"
 	"fmt"
 	"os"
+	"math"
 	"reflect"
 
 	"github.com/cosmos/cosmos-proto/zzverif/proj"
@@ -53,6 +56,10 @@ type Event struct {
 	RefSt   J      `json:"ref_st,omitempty"`  // twin projection
 	RefErr  string `json:"ref_err,omitempty"`
 	Case    int    `json:"case"`
+	StBefore J      `json:"st_before,omitempty"` // alias ops: projection before the disturbance
+	OutBefore []int `json:"out_before"`
+	ROChanged []string `json:"ro_changed"`      // readonly: read-only calls after which the Go struct differed
+	ROCalls  int    `json:"ro_calls"`
 	Outs    [][]int `json:"outs"`              // detn: distinct outputs over all repetitions and histories
 	Marshals int    `json:"marshals"`
 	Histories int   `json:"histories"`
@@ -132,6 +139,12 @@ func (r *codecRunner) emit(e *Event) {
 	}
 	if e.Outs == nil {
 		e.Outs = [][]int{}
+	}
+	if e.OutBefore == nil {
+		e.OutBefore = []int{}
+	}
+	if e.ROChanged == nil {
+		e.ROChanged = []string{}
 	}
 	b, err := json.Marshal(e)
 	if err != nil {
@@ -256,6 +269,111 @@ func (r *codecRunner) run(op Op) {
 		rb, _ := o.Marshal(r.d)
 		e.RefOut = proj.Bytes(rb)
 		e.RefOk = true
+	case "alias_in":
+		// C07: decode from a caller buffer, then overwrite that buffer: the message must not notice
+		in := append(make([]byte, 0, len(op.In)+8), proj.ToBytes(op.In)...)
+		fresh := newPulsar(r.mt)
+		var uerr error
+		e.Panic = catch(func() { uerr = proto.Unmarshal(in, fresh) })
+		e.Ok = uerr == nil && e.Panic == ""
+		if uerr != nil {
+			e.Err = uerr.Error()
+		}
+		if e.Ok {
+			e.Panic = catch(func() {
+				e.StBefore = proj.Project(proj.Impl(fresh), proj.WrapImpl)
+				b0, _ := proto.MarshalOptions{Deterministic: true}.Marshal(fresh)
+				e.OutBefore = proj.Bytes(b0)
+				full := in[:cap(in)]
+				for i := range full {
+					full[i] = 0xA5
+				}
+				e.St = proj.Project(proj.Impl(fresh), proj.WrapImpl)
+				b1, _ := proto.MarshalOptions{Deterministic: true}.Marshal(fresh)
+				e.Out = proj.Bytes(b1)
+			})
+			e.Ok = e.Panic == ""
+		}
+		e.FastEq, e.RefOk = true, true
+	case "alias_out":
+		// C07: marshal, then overwrite every byte the message owns in place: the returned bytes
+		// must not change
+		var b []byte
+		var err error
+		e.Panic = catch(func() { b, err = proto.MarshalOptions{Deterministic: op.Det}.Marshal(r.p) })
+		e.Ok = err == nil && e.Panic == ""
+		e.OutBefore = proj.Bytes(b)
+		if e.Ok {
+			victim := proto.Clone(r.p) // keep r.p intact for the following ops
+			b2, _ := proto.MarshalOptions{Deterministic: op.Det}.Marshal(victim)
+			keep := append([]byte(nil), b2...)
+			scribbleOwned(reflect.ValueOf(victim))
+			if !bytes.Equal(b2, keep) {
+				e.Err = "bytes returned by Marshal changed when the message was overwritten in place"
+				e.Ok = false
+			}
+			e.Out = proj.Bytes(b)
+		}
+		e.FastEq, e.RefOk = true, true
+	case "readonly":
+		// C07: read-only calls leave every field of the Go struct unchanged (nil vs empty included)
+		variants := []proto.Message{r.p}
+		v3 := proto.Clone(r.p)
+		plantEmpty(reflect.ValueOf(v3))
+		variants = append(variants, v3)
+		for vi, m := range variants {
+			calls := map[string]func(){
+				"Size":       func() { proto.Size(m) },
+				"SizeDet":    func() { proto.MarshalOptions{Deterministic: true}.Size(m) },
+				"Marshal":    func() { proto.Marshal(m) },
+				"MarshalDet": func() { proto.MarshalOptions{Deterministic: true}.Marshal(m) },
+				"Equal":      func() { proto.Equal(m, m); proto.Equal(m, r.d) },
+				"Range": func() {
+					m.ProtoReflect().Range(func(fd protoreflect.FieldDescriptor, v protoreflect.Value) bool { return true })
+				},
+				"GetAll": func() {
+					fds := m.ProtoReflect().Descriptor().Fields()
+					for i := 0; i < fds.Len(); i++ {
+						v := m.ProtoReflect().Get(fds.Get(i))
+						switch {
+						case fds.Get(i).IsList():
+							_ = v.List().Len()
+						case fds.Get(i).IsMap():
+							_ = v.Map().Len()
+						}
+						m.ProtoReflect().Has(fds.Get(i))
+					}
+					ods := m.ProtoReflect().Descriptor().Oneofs()
+					for i := 0; i < ods.Len(); i++ {
+						m.ProtoReflect().WhichOneof(ods.Get(i))
+					}
+					m.ProtoReflect().GetUnknown()
+				},
+				"Getters": func() {
+					rv := reflect.ValueOf(m)
+					for i := 0; i < rv.NumMethod(); i++ {
+						name := rv.Type().Method(i).Name
+						if strings.HasPrefix(name, "Get") && rv.Method(i).Type().NumIn() == 0 {
+							rv.Method(i).Call(nil)
+						}
+					}
+				},
+				"String":  func() { _ = fmt.Sprint(m) },
+				"Project": func() { proj.Project(m.ProtoReflect(), proj.WrapNone) },
+			}
+			for name, f := range calls {
+				before := snapshot(reflect.ValueOf(m))
+				pn := catch(f)
+				after := snapshot(reflect.ValueOf(m))
+				e.ROCalls++
+				if pn != "" {
+					e.ROChanged = append(e.ROChanged, fmt.Sprintf("%s(variant %d): panic %s", name, vi, pn))
+				} else if before != after {
+					e.ROChanged = append(e.ROChanged, fmt.Sprintf("%s(variant %d)", name, vi))
+				}
+			}
+		}
+		e.Ok, e.FastEq, e.RefOk = true, true, true
 	case "size":
 		o := proto.MarshalOptions{Deterministic: op.Det}
 		e.Panic = catch(func() {
@@ -358,6 +476,15 @@ func randomCodecPlan(g *val.Gen, mt protoreflect.MessageType, mode string, emit 
 	if is("det") {
 		emit(Op{Op: "marshal", Det: true, Tag: "det"})
 		emit(Op{Op: "marshal", Det: true, Tag: "det"})
+	}
+	if mode == "mem" {
+		x := b
+		if g.R.Intn(2) == 0 {
+			x = g.InjectUnknown(md, b, 0)
+		}
+		emit(Op{Op: "alias_in", In: proj.Bytes(x), Tag: "mem"})
+		emit(Op{Op: "alias_out", Det: g.R.Intn(2) == 0, Tag: "mem"})
+		emit(Op{Op: "readonly", Tag: "mem"})
 	}
 	if mode == "pure" {
 		emit(Op{Op: "detn", Reps: 6, Tag: "pure"})
@@ -538,4 +665,142 @@ func plantEmpty(v reflect.Value) {
 			plantEmpty(f)
 		}
 	}
+}
+
+// scribbleOwned overwrites, in place, every byte slice reachable from a generated struct
+// (bytes fields, repeated bytes, map values, unknown fields), recursively.
+func scribbleOwned(v reflect.Value) {
+	if v.Kind() == reflect.Ptr || v.Kind() == reflect.Interface {
+		if v.IsNil() {
+			return
+		}
+		scribbleOwned(v.Elem())
+		return
+	}
+	switch v.Kind() {
+	case reflect.Struct:
+		for i := 0; i < v.NumField(); i++ {
+			f := v.Field(i)
+			name := v.Type().Field(i).Name
+			if name == "state" || name == "sizeCache" {
+				continue
+			}
+			if !f.CanSet() { // unexported: unknownFields
+				if f.Kind() == reflect.Slice && f.Type().Elem().Kind() == reflect.Uint8 {
+					for j := 0; j < f.Len(); j++ {
+						p := (*byte)(f.Index(j).Addr().UnsafePointer())
+						*p ^= 0xFF
+					}
+				}
+				continue
+			}
+			scribbleOwned(f)
+		}
+	case reflect.Slice:
+		if v.Type().Elem().Kind() == reflect.Uint8 {
+			for j := 0; j < v.Len(); j++ {
+				v.Index(j).SetUint(v.Index(j).Uint() ^ 0xFF)
+			}
+			return
+		}
+		for j := 0; j < v.Len(); j++ {
+			scribbleOwned(v.Index(j))
+		}
+	case reflect.Map:
+		for _, k := range v.MapKeys() {
+			e := v.MapIndex(k)
+			if e.Kind() == reflect.Slice && e.Type().Elem().Kind() == reflect.Uint8 {
+				for j := 0; j < e.Len(); j++ {
+					p := (*byte)(e.Index(j).Addr().UnsafePointer())
+					*p ^= 0xFF
+				}
+			} else {
+				scribbleOwned(e)
+			}
+		}
+	}
+}
+
+// snapshot renders the full Go state of a generated struct, distinguishing nil from empty
+// slices and maps (the protoimpl message state word is skipped: it is lazily initialised by
+// protobuf-go's own reflection, which this harness uses for projection).
+func snapshot(v reflect.Value) string {
+	var sb strings.Builder
+	var walk func(v reflect.Value, depth int)
+	walk = func(v reflect.Value, depth int) {
+		if depth > 12 {
+			sb.WriteString("…")
+			return
+		}
+		switch v.Kind() {
+		case reflect.Ptr, reflect.Interface:
+			if v.IsNil() {
+				sb.WriteString("nil")
+				return
+			}
+			sb.WriteString("&")
+			walk(v.Elem(), depth+1)
+		case reflect.Struct:
+			sb.WriteString(v.Type().Name() + "{")
+			for i := 0; i < v.NumField(); i++ {
+				name := v.Type().Field(i).Name
+				if name == "state" {
+					continue
+				}
+				// protobuf-go's own generated types (Any, Timestamp, ...) cache their size
+				if name == "sizeCache" && strings.HasPrefix(v.Type().PkgPath(), "google.golang.org/protobuf/") {
+					continue
+				}
+				sb.WriteString(name + ":")
+				walk(v.Field(i), depth+1)
+				sb.WriteString(",")
+			}
+			sb.WriteString("}")
+		case reflect.Slice:
+			if v.IsNil() {
+				sb.WriteString("nilslice")
+				return
+			}
+			fmt.Fprintf(&sb, "[%d:", v.Len())
+			for j := 0; j < v.Len(); j++ {
+				walk(v.Index(j), depth+1)
+				sb.WriteString(" ")
+			}
+			sb.WriteString("]")
+		case reflect.Map:
+			if v.IsNil() {
+				sb.WriteString("nilmap")
+				return
+			}
+			keys := v.MapKeys()
+			strs := make([]string, len(keys))
+			idx := map[string]reflect.Value{}
+			for i, k := range keys {
+				strs[i] = fmt.Sprintf("%#v", k)
+				idx[strs[i]] = k
+			}
+			sort.Strings(strs)
+			fmt.Fprintf(&sb, "map[%d:", len(keys))
+			for _, s := range strs {
+				sb.WriteString(s + "=>")
+				walk(v.MapIndex(idx[s]), depth+1)
+				sb.WriteString(" ")
+			}
+			sb.WriteString("]")
+		case reflect.Float32, reflect.Float64:
+			fmt.Fprintf(&sb, "%x", math.Float64bits(v.Float()))
+		case reflect.String:
+			fmt.Fprintf(&sb, "%q", v.String())
+		case reflect.Bool:
+			fmt.Fprintf(&sb, "%v", v.Bool())
+		case reflect.Int, reflect.Int32, reflect.Int64:
+			fmt.Fprintf(&sb, "%d", v.Int())
+		case reflect.Uint8, reflect.Uint32, reflect.Uint64:
+			fmt.Fprintf(&sb, "%d", v.Uint())
+		default:
+			fmt.Fprintf(&sb, "?%s", v.Kind())
+		}
+	}
+	walk(v, 0)
+	return sb.String()
 }
